@@ -226,7 +226,68 @@ def h_commute(params):
     _run(body)
 
 
-HARNESS = {"h_pair": h_pair, "h_commute": h_commute, "h_oppair": h_oppair}
+def _same_value_pairs():
+    """Pairs of queries whose operands are EQUAL VALUES WRITTEN DIFFERENTLY (1 / 1.0, one instant in two
+    zones, re.I / 2, attribute / item access, tuple of extra test arguments): whenever tinyflux calls them
+    equal they must hash alike and evaluate alike."""
+    import datetime as dt
+    import re
+
+    from tinyflux import FieldQuery, MeasurementQuery, TagQuery, TimeQuery
+
+    t_utc = dt.datetime(2021, 3, 4, 5, 6, 7, tzinfo=dt.timezone.utc)
+    t_off = t_utc.astimezone(dt.timezone(dt.timedelta(hours=5, minutes=30)))
+    f = lambda v, lim: v is not None and v < lim  # noqa: E731
+    out = []
+    for a, b in ((1, 1.0), (0, 0.0), (0.0, -0.0), (-2, -2.0), (2**53, float(2**53))):
+        for op in ("==", "!=", "<", ">="):
+            mk = {"==": lambda q, v: q == v, "!=": lambda q, v: q != v, "<": lambda q, v: q < v, ">=": lambda q, v: q >= v}[op]
+            out.append((f"field f {op} {a!r} / {b!r}", mk(FieldQuery().f, a), mk(FieldQuery().f, b)))
+        out.append((f"field f test(fn, {a!r}) / test(fn, {b!r})", FieldQuery().f.test(f, a), FieldQuery().f.test(f, b)))
+    for op in ("==", "<", ">="):
+        mk = {"==": lambda q, v: q == v, "<": lambda q, v: q < v, ">=": lambda q, v: q >= v}[op]
+        out.append((f"time {op} instant in UTC / +05:30", mk(TimeQuery(), t_utc), mk(TimeQuery(), t_off)))
+    for fa, fb in ((re.I, 2), (re.I | re.S, 18), (0, re.RegexFlag(0))):
+        out.append((f"tag k search flags {fa!r} / {fb!r}", TagQuery().k.search("A", fa), TagQuery().k.search("A", fb)))
+        out.append((f"measurement matches flags {fa!r} / {fb!r}", MeasurementQuery().matches("M", fa), MeasurementQuery().matches("M", fb)))
+    out.append(("tag .k / ['k']", TagQuery().k == "a", TagQuery()["k"] == "a"))
+    out.append(("field .f / ['f'] exists", FieldQuery().f.exists(), FieldQuery()["f"].exists()))
+    out.append(("compound with 1 / 1.0", (FieldQuery().f == 1) & (TagQuery().k == "a"), (TagQuery().k == "a") & (FieldQuery().f == 1.0)))
+    out.append(("negation of 1 / 1.0", ~(FieldQuery().f == 1), ~(FieldQuery().f == 1.0)))
+    return out
+
+
+def h_same_value(params):
+    from tinyflux import Point
+
+    import datetime as dt
+
+    pairs = _same_value_pairs()
+    i = choose("pair", len(pairs))
+    name, q1, q2 = pairs[i]
+    try:
+        eq, eq2 = (q1 == q2), (q2 == q1)
+    except Exception as e:
+        fail(lambda: f"comparing [{name}] raised {type(e).__name__}: {e}")
+    require(eq == eq2, lambda: f"[{name}]: q1 == q2 is {eq} but q2 == q1 is {eq2}")
+    if eq:
+        require(hash(q1) == hash(q2), lambda: f"[{name}]: the queries compare equal but their hashes differ ({hash(q1)} vs {hash(q2)})")
+        require(len({q1, q2}) == 1 and q2 in {q1: 0}, lambda: f"[{name}]: equal queries are distinct members of a set / dict")
+        t0 = dt.datetime(2021, 3, 4, 5, 6, 7, tzinfo=dt.timezone.utc)
+        for p in (
+            Point(time=t0, measurement="m", tags={"k": "a"}, fields={"f": 1}),
+            Point(time=t0 + dt.timedelta(microseconds=1), measurement="M", tags={"k": "A"}, fields={"f": 0.0}),
+            Point(time=t0 - dt.timedelta(seconds=1), measurement="n", tags={}, fields={"f": None}),
+            Point(time=t0, measurement="m", tags={"k": None}, fields={"f": 2**53}),
+            Point(time=t0, measurement="m", tags={"j": "a"}, fields={"g": -2}),
+        ):
+            r1, r2 = _ev(q1, p, name), _ev(q2, p, name)
+            require(r1 == r2, lambda: f"[{name}]: equal queries evaluate to {r1} and {r2} on {show(p)}")
+    if params.get("twin"):
+        fail("reachability twin")
+
+
+HARNESS = {"h_pair": h_pair, "h_commute": h_commute, "h_oppair": h_oppair, "h_same_value": h_same_value}
 
 
 def obligations(tier):
@@ -239,6 +300,8 @@ def obligations(tier):
     ops = REPS + [("and", REPS[0], REPS[1]), ("or", REPS[1], REPS[2]), ("not", REPS[2]), ("and", REPS[3], REPS[4]), ("noop", "tag")]
     for a, b in itertools.product(ops, ops):
         obs.append({"id": f"commute/{q_repr(a)}/{q_repr(b)}", "harness": "h_commute", "params": {"a": a, "b": b}, "budget_s": 60})
+    obs.append({"id": "same-value/written-differently", "harness": "h_same_value", "params": {}, "budget_s": 60})
+    obs.append({"id": "twin/same-value", "harness": "h_same_value", "params": {"twin": True}, "budget_s": 60})
     obs.append({"id": "twin/pair", "harness": "h_pair", "params": {"q": LEAVES[12], "tier": tier, "twin": True}, "budget_s": 60})
     obs.append({"id": "twin/commute", "harness": "h_commute", "params": {"a": REPS[0], "b": REPS[1], "twin": True}, "budget_s": 60})
     for hname in ("h_str_rhs", "h_meas_rhs", "h_regex_flags"):
